@@ -14,7 +14,7 @@
    `lower` of such a nest; that tie is the kernel-evaluated execution of every emitted
    program against the dense oracle (tools/props/c01.py). *)
 From Coq Require Import ZArith List String.
-Require Import TV.Model.Nest TV.Proofs.NestProofs.
+Require Import TV.Model.Nest TV.Proofs.NestProofs TV.Model.NestTake TV.Proofs.NestTakeProofs.
 Import ListNotations.
 Open Scope Z_scope.
 
@@ -41,3 +41,37 @@ Theorem C01_nest_full_okb_sound_partial : forall L tms views acc lv out,
   (forall o, nest_result acc out o (run_lv lv L tms) = out_sum_at out o (run L tms)) /\
   (forall p, sum_at p (run L tms) = body_den tms p).
 Proof. exact nest_full_okb_sound. Qed.
+
+(* take(): a term take(op_0, ..., op_n, i) has operand i's value where every operand is non-zero and 0 elsewhere (sden);
+   the emitted nest co-iterates it like a product and its update adds the selected operand's leaf (sleaf, runS).
+   For ANY loop order, ANY mix of product and take terms and ANY input tries whose stored leaves are non-zero (goodb):
+   if the validator accepts - in particular every take's selected operand holds every loop rank (takes_okb), read off
+   the rank structure - the nest as the text writes it leaves in every output point the accumulated contributions of
+   runS, which are at every full point the Einsum's value. *)
+Theorem C01_nest_take_full_okb_sound_partial : forall L sels tms views acc lv out,
+  nest_take_full_okb L (map (map rem) tms) views sels acc lv out = true ->
+  forallb (forallb (fun t => goodb (rem t) (cur t))) tms = true ->
+  views = expected_views L (map (map rem) tms) /\
+  (forall o, nest_result acc out o (run_lv lv L tms) = out_sum_at out o (runS L (combine sels tms))) /\
+  (forall p, sum_at p (runS L (combine sels tms)) = sbody_den (combine sels tms) p).
+Proof. exact nest_take_full_okb_sound. Qed.
+
+(* a single-term program (one product or one take): no side condition on the selected operand is needed, because the
+   nest only visits coordinates at which the term is alive *)
+Theorem C01_nest_take1_full_okb_sound_partial : forall L s tm views acc lv out,
+  nest_take1_full_okb L (map rem tm) views s acc lv out = true ->
+  forallb (fun t => goodb (rem t) (cur t)) tm = true ->
+  views = expected_views L [map rem tm] /\
+  (forall o, nest_result acc out o (run_lv lv L [tm]) = out_sum_at out o (runS L [(s, tm)])) /\
+  (forall p, sum_at p (runS L [(s, tm)]) = sden (s, tm) p).
+Proof. exact nest_take1_full_okb_sound. Qed.
+
+(* finding F7 at the model level: the side condition on the selected operand is necessary.  For
+   Z[m] = A[m] + take(B[], C[m], 0) (B selected, rank-0) with A = {0: 1}, B = 5, C = {1: 2} the emitted nest contributes 6
+   at m = 0 where the Einsum defines 1. *)
+Theorem C01_take_in_sum_refuted :
+  swf ["M"%string] (map (map rem) f7_terms) = true /\
+  forallb (forallb (fun t => goodb (rem t) (cur t))) f7_terms = true /\
+  takes_okb ["M"%string] f7_sels (map (map rem) f7_terms) = false /\
+  exists p, sum_at p (runS ["M"%string] (combine f7_sels f7_terms)) <> sbody_den (combine f7_sels f7_terms) p.
+Proof. exact runS_take_unsafe_refuted. Qed.
